@@ -1,7 +1,6 @@
 package sim
 
 import (
-	"bytes"
 	"errors"
 	"fmt"
 	"math"
@@ -590,6 +589,9 @@ func (o netOp) String() string {
 	case nopDepthCap:
 		return fmt.Sprintf("MaxActivationDepthWithCap(%d)", o.cap)
 	case nopPrintPaths:
+		if o.k >= 0 {
+			return fmt.Sprintf("PrintAllActivationDepthPaths(writer failing at byte %d)", o.k)
+		}
 		return "PrintAllActivationDepthPaths(w)"
 	case nopNodeDepth:
 		return fmt.Sprintf("Outputs[%d %% n].Depth(0, %d)", o.k, o.cap)
@@ -605,8 +607,11 @@ func drawNetOps(t *Tape, n, nin int, label string) []netOp {
 		case nopLoad:
 			sub := t.Sub(label + ".vec")
 			o.vec = make([]float64, nin)
+			zero := t.Chance(label+".zerovec", 1, 6) // the all-zero pattern (XOR's {0,0}) is an input vector like any other
 			for j := range o.vec {
-				o.vec[j] = math.Round((sub.Float()*4-2)*1000) / 1000
+				if !zero {
+					o.vec[j] = math.Round((sub.Float()*4-2)*1000) / 1000
+				}
 			}
 		case nopActivateSteps, nopForward, nopRelax:
 			o.k = 1 + t.Draw(label+".k", 4)
@@ -615,6 +620,12 @@ func drawNetOps(t *Tape, n, nin int, label string) []netOp {
 		case nopNodeDepth:
 			o.k = t.Draw(label+".out", 4)
 			o.cap = t.Draw(label+".ncap", 4) // 0 = no cap
+		case nopPrintPaths:
+			// the writer may fail after a few write calls (a closed pipe): the printer then stops in mid-walk
+			o.k = -1
+			if t.Chance(label+".printfail", 1, 2) {
+				o.k = t.Draw(label+".printfail.at", 40)
+			}
 		}
 		ops = append(ops, o)
 	}
@@ -677,9 +688,9 @@ func applyStd(net *network.Network, o netOp) obs {
 	case nopDepthCap:
 		r.num, err = net.MaxActivationDepthWithCap(o.cap)
 	case nopPrintPaths:
-		var buf bytes.Buffer
-		err = network.PrintAllActivationDepthPaths(net, &buf)
-		r.num = buf.Len()
+		w := NewSimWriter(o.k) // o.k < 0: never fails; otherwise the device fails from byte o.k on
+		err = network.PrintAllActivationDepthPaths(net, w)
+		r.num = len(w.Buf)
 	case nopNodeDepth:
 		if len(net.Outputs) > 0 {
 			r.num, err = net.Outputs[o.k%len(net.Outputs)].Depth(0, o.cap)
@@ -973,9 +984,14 @@ func scenarioC14(c *RunCtx) {
 			switch kind {
 			case 3:
 				// the path printer walks the same marks
-				var buf bytes.Buffer
-				c.LibSoft("PrintAllActivationDepthPaths", func() { _ = network.PrintAllActivationDepthPaths(net, &buf) })
-				trace += " PrintAllActivationDepthPaths(w);"
+				failAt := -1
+				if t.Chance("print.fail", 1, 2) {
+					failAt = t.Draw("print.fail.at", 40)
+					c.Count("fault.print_paths_writer_error")
+				}
+				pw := NewSimWriter(failAt)
+				c.LibSoft("PrintAllActivationDepthPaths", func() { _ = network.PrintAllActivationDepthPaths(net, pw) })
+				trace += fmt.Sprintf(" PrintAllActivationDepthPaths(writer failing at byte %d);", failAt)
 				c.Count("probe.print_paths_then_query")
 			case 4:
 				// a depth query put to an output node directly (the method is exported), with or without a cap; the same
